@@ -3,6 +3,7 @@ from engine.facts import CannotDecide, callee_is, path_matches
 from .common import Table, reachable_local_fns, norm_path
 from .deadlines import arming_rules, expiry_rules
 
+EXTRA_CONFIGS = ('default', 'tokio1', 'serde1', 'serde-transport')   # feature configurations re-analysed in the thorough tier
 META = {
     'level': 'other',
     'technique': 'static provenance of the timer duration, who-may-call(abort) and expiry-edge rules over MIR',
